@@ -1,7 +1,7 @@
 (** C13 - persisting is incremental, writes no garbage, and clean means unchanged.
     Statements only; proofs are in Persist.v / Hist.v. *)
 From Coq Require Import List NArith ZArith Bool.
-From Mast Require Import Prim Key Tree KeyOrder Codec Store Diff World Erase Build Spec Canon Level Inv Hist Persist.
+From Mast Require Import Prim Key Tree KeyOrder Codec Store Diff World Erase Build Spec Canon Links Level Inv Hist Persist Reload DiffLinks PersistCount.
 Import ListNotations.
 
 (** persisting a tree that was not modified since it was loaded or persisted writes nothing at all
@@ -21,10 +21,31 @@ Theorem C13_persist_keeps_contents : forall bf f m l, kcanon bf m l ->
   oks (make_root f m) (fun r => kcanon bf (snd r) l /\ r_size (fst r) = N.of_nat (length l)).
 Proof. exact k_make_root_ok. Qed.
 
-(** PARTIAL: the locality clause (only nodes whose range holds a modified key are rewritten), the
-    2*height+2 bound per modified key and the IsDirty clause are decided by the oracle on the
-    implementation's recorded Store calls (tools/oracle.py check_persist) and by the one-sided
-    correspondence of store names with the model; they are not proved as theorems yet. *)
+(** What a persist writes: exactly one Store event for every in-memory node that is not a clean copy
+    of a stored node ([dcount]: nothing at or below a clean sourced node, nothing behind a hash link:
+    none of the last version's nodes is rewritten unless it was replaced by a modified copy), and every
+    name written is a name the returned root reaches (no garbage). *)
+Theorem C13_writes_exactly_the_unsaved_nodes : forall fuel f (n : knode),
+  okt (store_node fuel f n)
+      (fun t r => length (stored t) = dcount n /\ incl (stored t) (names_l key val (LHash (fst r) (snd r)))).
+Proof. exact store_node_count. Qed.
+
+(** IsDirty: a tree that reports itself clean and holds its root by pointer holds exactly the stored
+    node it was loaded from or persisted as (so its contents are that version's) *)
+Theorem C13_clean_root_is_the_stored_version : forall s kind (m : kmast) n h,
+  root_allh s kind m -> is_dirty _ _ m = false -> m_root _ _ m = LPtr n -> n_src _ _ n = Some h -> sto s kind h n.
+Proof.
+  intros s kind m n h Ha Hd Er Hs. unfold root_allh in Ha. rewrite Er in Ha. unfold is_dirty in Hd. rewrite Er in Hd.
+  inversion Ha as [|c Hc|]; subst. destruct n as [d sr l0 es]. cbn [n_dirty n_src] in Hd, Hs. subst d sr.
+  inversion Hc as [? ? ? ? _ _ Hcl]; subst. exact (Hcl eq_refl h eq_refl).
+Qed.
+
+(** PARTIAL: that the unsaved nodes are only those whose key range holds a modified key, and at most
+    2*height+2 of them per modified key, is decided by the oracle on the implementation's recorded
+    Store calls (tools/oracle.py check_persist) and by the one-sided correspondence of store names
+    with the model; it is not proved as a theorem yet. *)
 Print Assumptions C13_noop.
+Print Assumptions C13_writes_exactly_the_unsaved_nodes.
+Print Assumptions C13_clean_root_is_the_stored_version.
 Print Assumptions C13_writes_named.
 Print Assumptions C13_persist_keeps_contents.
